@@ -119,6 +119,7 @@ func c10(c *core.Check) {
 	c10CollapseMargin(c)
 	c10CollapseThrough(c)
 	c10Provenance(c)
+	c10Direction(c)
 	r4 := c.Rule("R4", "sibling symmetry in block layout code: two assignments of one block that differ by a side (Top/Bottom, Left/Right) on the left and have the same shape on the right mirror every side name of that axis (a half-mirrored pair is a copy-paste slip between the two sides of a box)", 6)
 	sideSymmetryRule(c, r4, "html/layout", map[string]bool{"blocks.go": true, "percentages.go": true, "min_max.go": true, "absolute.go": true, "float.go": true, "replaced.go": true, "preferred.go": true, "tables.go": true, "flex.go": true, "pages.go": true, "backgrounds.go": true, "columns.go": true, "grid.go": true}, 6)
 	r5 := c.Rule("R5", "box-edge sums: an additive expression over margins, paddings and border widths mentions each kind of edge with the same sides (both sides of an axis for all of them, or one side for all of them): a sum with the padding of both sides and twice the same border is a copy-paste slip", 44)
@@ -263,7 +264,7 @@ func paramSpill(al *ssa.Alloc) *ssa.Parameter {
 // ---- R2 min/max wrappers
 func c10MinMax(c *core.Check) {
 	p := c.Prog
-	r := c.Rule("R2", "the min/max wrappers: the max clamp is tested before the min clamp (so min wins), each clamp re-runs the wrapped function, and each wrapper writes only the size and the two margins of its own axis", 7)
+	r := c.Rule("R2", "the min/max wrappers: the max clamp is tested before the min clamp (so min wins), each clamp re-runs the wrapped function, and each wrapper writes only the size and the two margins of its own axis", 9)
 	for _, w := range []struct{ name, size, max, min, m1, m2 string }{
 		{"handleMinMaxWidth$1", "Width", "MaxWidth", "MinWidth", "MarginLeft", "MarginRight"},
 		{"handleMinMaxHeight$1", "Height", "MaxHeight", "MinHeight", "MarginTop", "MarginBottom"},
@@ -338,6 +339,28 @@ func c10MinMax(c *core.Check) {
 			continue
 		}
 		r.Cond(maxBlk != minBlk && maxBlk.Dominates(minBlk), w.name+" | max clamp before min clamp", p.Pos(fn.Pos()), "the max test dominates the min test", "the min clamp is applied before the max clamp: when min > max the result would be max instead of min")
+		// min wins: the min test is also made after the max clamp was applied (it is reachable from the clamping branch,
+		// not an alternative to it)
+		{
+			then := maxBlk.Succs[0]
+			seen := map[*ssa.BasicBlock]bool{then: true}
+			work := []*ssa.BasicBlock{then}
+			reached := then == minBlk
+			for len(work) > 0 && !reached {
+				b := work[len(work)-1]
+				work = work[:len(work)-1]
+				for _, sc := range b.Succs {
+					if sc == minBlk {
+						reached = true
+					}
+					if !seen[sc] {
+						seen[sc] = true
+						work = append(work, sc)
+					}
+				}
+			}
+			r.Cond(reached, w.name+" | min test follows the max clamp", p.Pos(fn.Pos()), "the min test is reached after the clamp to the maximum", "the min clamp is an alternative (`else if`) of the max clamp: with min > max the size stays at max, CSS 2.1 §10.4 gives min")
+		}
 		// each clamp (the true branch of each test) re-runs the wrapped function and assigns the right bound
 		for _, cl := range []struct {
 			blk   *ssa.BasicBlock
